@@ -55,6 +55,9 @@ OnEOF(s, e, i) ==
              s2 == RepIf(\E k \in DOMAIN s.groups : ~GroupOK(s.groups[k]), s1, V("parser-group-malformed", s0, [x |-> 0]))
              badp == {p \in DOMAIN s.units : PerPidGroups(s.groups, p) # s.units[p]}
          IN RepIf(badp # {}, s2, V("parser-not-handed-each-unit-once", s0, [pids |-> badp]))
+    [] e.run = "skipCtx" ->           \* context cancelled from inside the predicate: what was returned is a prefix of the filtered stream's packets
+         LET a == Q(s.P, "skipCtx") b == Q(s.P, "skipB") IN
+         RepIf(Len(a) > Len(b) \/ a # SubSeq(b, 1, Min2(Len(a), Len(b))), s0, V("skipped-packet-returned-when-context-done", s0, [na |-> Len(a), nb |-> Len(b)]))
     [] e.run = "parserObsDs" ->       \* skip=false together with data of the parser's own: the default output (run base2) is unchanged
          RepIf(Q(s.D, "parserObsDs") # Q(s.D, "base2"), s0, V("parser-data-with-skip-false-changes-output", s0,
                   [nobs |-> Len(Q(s.D, "parserObsDs")), nbase |-> Len(Q(s.D, "base2"))]))
